@@ -33,6 +33,10 @@ INPUTS = {
     "shared_by_parent_and_grandparent": [{"info": {"a": 3, "b": "z"}, "extra": {"c": 2.5, "info": {"a": 4, "b": "w"}, "more": {"d": 1, "info": {"a": 5, "b": "v"}}}}],
     # keys without any word character: nothing is left after sanitising (the pinned tree fails on them -- the same way in every process)
     "punctuation_only_keys": [{"$": 1, "%": {"a": 1}, "": "x", "ok": 2}],
+    # (a dict instead of a list: several root models) one model shared by three / four roots: the nested layout places the shared class
+    # relative to the roots that use it, found by walking sets of ModelPtr (hashed by id)
+    "three_roots_shared": {"Alpha": [{"item": {"sku": "s", "qty": 1, "w": 1.5}, "a": 1}], "Beta": [{"item": {"sku": "t", "qty": 2, "w": 2.5}, "b": "x"}],
+                           "Gamma": [{"item": {"sku": "u", "qty": 3, "w": 3.5}, "c": [1]}], "Delta": [{"d": {"item": {"sku": "v", "qty": 4, "w": 4.5}, "dd": 1}}]},
     "literals": [{"kind": "b", "tags": ["y", "x"]}, {"kind": "a", "tags": ["z"]}, {"kind": "c", "tags": []}],
 }
 
@@ -51,8 +55,9 @@ def ranked_hashes(rank_of_model, rank_of_ptr):
 
 def run_pipeline(inp, fw, layout):
     from vflib import pipeline
-    gen, reg, _ = pipeline.infer({"Root": copy.deepcopy(INPUTS[inp])})
-    if layout == "nested" and not pipeline.is_tree(reg):
+    data = INPUTS[inp]
+    gen, reg, _ = pipeline.infer(copy.deepcopy(data) if isinstance(data, dict) else {"Root": copy.deepcopy(data)})
+    if layout == "nested" and not pipeline.is_tree(reg) and not isinstance(data, dict):
         layout = "flat"
     kw = {"meta": True} if fw in ("attrs", "dataclasses") else {}
     return pipeline.emit(reg, fw, layout, **kw)
@@ -187,14 +192,14 @@ def scen_seeds_cli(ch, params, out):
 
 def parts(tier):
     if tier == "quick":
-        return [CH("ranks", "vflib.props.c06:scen_ranks", {"inputs": ["merge2", "merge3", "shared", "equal_models"], "max_ranked": 5}, shards=16, timeout=170, path_timeout=60),
+        return [CH("ranks", "vflib.props.c06:scen_ranks", {"inputs": ["merge2", "merge3", "shared", "equal_models", "three_roots_shared"], "max_ranked": 5}, shards=16, timeout=170, path_timeout=60),
                 CH("real_seeds", "vflib.props.c06:scen_seeds_literals", {"seeds": 5}, shards=1, timeout=170, path_timeout=60),
                 CH("real_seeds_cli_files", "vflib.props.c06:scen_seeds_cli", {"seeds": 4}, shards=1, timeout=170, path_timeout=60),
                 CH("same_generation_later_in_process", "vflib.props.c14:scen_history",
                    {"calls": 3, "inputs": ["simple", "shared"], "frameworks": ["pydantic"]}, shards=12, timeout=170, path_timeout=60),
                 CH("same_generation_after_other_registries", "vflib.props.c14:scen_history",
                    {"calls": 2, "inputs": ["dates"], "frameworks": ["pydantic"], "registries": ["default", "none", "datetime"]}, shards=16, timeout=170, path_timeout=60)]
-    return [CH("ranks", "vflib.props.c06:scen_ranks", {"inputs": ["merge2", "merge3", "shared", "names", "literals", "equal_models"], "max_ranked": 7}, shards=16, timeout=250, path_timeout=60),
+    return [CH("ranks", "vflib.props.c06:scen_ranks", {"inputs": ["merge2", "merge3", "shared", "names", "literals", "equal_models", "three_roots_shared"], "max_ranked": 7}, shards=16, timeout=250, path_timeout=60),
             CH("real_seeds", "vflib.props.c06:scen_seeds_literals", {"seeds": 40}, shards=1, timeout=250, path_timeout=60),
             CH("real_seeds_cli_files", "vflib.props.c06:scen_seeds_cli", {"seeds": 20}, shards=1, timeout=250, path_timeout=60)]
 
